@@ -50,7 +50,7 @@ inductive Msg where
   | appData (d : Bytes)
   | keyUpdate (v : Nat)                          -- well-formed KeyUpdate with request byte v
   | newSessionTicket
-  | certRequest (ctx : Nat) (sigAlgsEmpty : Bool)
+  | certRequest (ctx : Nat) (sigAlgs : Nat)        -- signature_algorithms: 0 usable, 1 empty, 2 none usable with the client's key
   | certificate (ctx : Nat) (chain : Nat)        -- ctx 0 = empty context, chain 0 = empty list
   | certVerify (advertised consistent sigOk : Bool)
   | finished (ok : Bool)
@@ -317,8 +317,9 @@ def sendBuffered (ms : List Msg) : M Unit := fun l =>
   else (.ok (), { l with out := { l.out with recs := l.out.recs ++ ms.map (fun m => ⟨l.me.writeGen, m⟩) } })
 
 /-- `_handle_pha` (client) -/
-def handlePha (ctx : Nat) (sigAlgsEmpty : Bool) : M Unit := fun l =>
-  if l.me.myChain != 0 && sigAlgsEmpty then sendError 109 l
+def handlePha (ctx : Nat) (sigAlgs : Nat) : M Unit := fun l =>
+  if l.me.myChain != 0 && sigAlgs == 1 then sendError 109 l            -- missing_extension
+  else if l.me.myChain != 0 && sigAlgs != 0 then sendError 40 l       -- handshake_failure: no common algorithm
   else sendBuffered (phaMsgs l.me ctx) l
 
 /-- second half of `_handle_srv_pha`: read and check Finished, then record the chain -/
@@ -351,14 +352,14 @@ def handleSrvPha (ctx chain : Nat) : M Unit := fun l =>
     else srvPhaFinish chain l1
 
 /-- `request_post_handshake_auth` (the context is registered before the request is sent) -/
-def requestClientAuth : M Unit := fun l =>
+def requestClientAuth (sigAlgs : Nat := 0) : M Unit := fun l =>
   if l.me.closed || !l.me.ver13 then (.err .valueError, l)
   else if l.me.isClient then (.err .valueError, l)
   else if !l.me.phaSupported then (.err .valueError, l)
   else
     let ctx := l.me.nextCtx
     let l1 := { l with me := { l.me with certReqs := l.me.certReqs ++ [ctx], nextCtx := ctx + 1 } }
-    sendMsg (.certRequest ctx false) l1
+    sendMsg (.certRequest ctx sigAlgs) l1
 
 /-! ### read -/
 
@@ -518,7 +519,7 @@ inductive Op where
   | write (d : Bytes)
   | read (max : Option Nat) (min : Nat)
   | keyUpdate (requested : Bool)
-  | requestClientAuth
+  | requestClientAuth (sigAlgs : Nat := 0)   -- what the request's signature_algorithms are worth to the client (see `Msg.certRequest`)
   | heartbeat (payload : Bytes) (padLen : Nat)
   | close
   | makefile                  -- `makefile()`: a file object sharing the connection (closing it is `close`)
@@ -549,7 +550,7 @@ def runLocal (op : Op) (l : Local) : Out × Local :=
     | (.stall, l1) => (.stall, l1)
     | (.err e, l1) => (.err e, l1)
   | .keyUpdate r => liftU (sendKeyUpdate (if r then 1 else 0) l)
-  | .requestClientAuth => liftU (requestClientAuth l)
+  | .requestClientAuth sa => liftU (requestClientAuth sa l)
   | .heartbeat p n => liftU (heartbeat p n l)
   | .close => liftU (close l)
   | .makefile => (.done, makefile l)
@@ -611,6 +612,26 @@ def hsFault (steps : List IoStep) (i : Nat) (k : Fault) (pendingAlert : Option N
     | none => ⟨some (recvAfter k), true, false, false⟩
   | some .sendOther => ⟨some .socketError, true, false, false⟩
   | some .flush => ⟨some .socketError, true, false, false⟩
+
+/-! ### one session object across several connections (server SessionCache / the client's Session) -/
+
+/-- how a connection that uses the session ended -/
+inductive ConnEnd where
+  | orderly        -- close_notify exchanged (`_shutdown(True)`)
+  | fatal          -- fatal alert, truncation or transport failure (`_shutdown(False)`)
+deriving DecidableEq, Repr, Inhabited
+
+/-- `session.resumable` of the ONE object all these connections work on: a resumed connection is handed
+    the cached `Session` itself (`self.session = session`), so its `_shutdown(False)` clears the flag
+    of the cache entry; nothing ever sets it again ("we'll never toggle this on") -/
+def sessionAfter : List ConnEnd → Bool
+  | [] => true
+  | .orderly :: rest => sessionAfter rest
+  | .fatal :: _ => false
+
+/-- does the next handshake that offers the session resume it? (`Session.valid()` / the server's
+    `if not session.resumable: raise AssertionError` in the cache lookup) -/
+def nextResumes (ends : List ConnEnd) : Bool := sessionAfter ends
 
 /-- an alert of the peer read by `_getMsg` in the middle of a handshake: close_notify or a warning is
     answered with close_notify; `_shutdown(True)` only for close_notify, `_shutdown(False)` otherwise;
